@@ -304,6 +304,19 @@ std::string canon_report(std::string const& msg)
   return "unparsed <" + flat + ">";
 }
 
+// "releasek e o": the reporter, on receiving the next non-fatal report, destroys mock o — a test fixture torn down from
+// inside the report about expectation e, while e is still hooked to its mock
+static int kill_on_report = -1;
+static void kill_mock(int o)
+{
+  if (mocksM.count(o)) { delete mocksM.at(o); mocksM.erase(o); }
+  else { delete mocksN.at(o); mocksN.erase(o); }
+}
+static void after_nonfatal()
+{
+  if (kill_on_report >= 0) { int o = kill_on_report; kill_on_report = -1; kill_mock(o); }
+}
+
 void install_reporter(int r)
 {
   current_reporter = r;
@@ -314,6 +327,7 @@ void install_reporter(int r)
       (void)file; (void)line;
       ev(std::string("report ") + (s == trompeloeil::severity::fatal ? "F" : "N") + " r" + std::to_string(r) + " " + canon_report(msg));
       if (s == trompeloeil::severity::fatal) throw Reported{};
+      after_nonfatal();
     },
     [r](char const* msg) {
       if (std::strcmp(msg, "#probe") == 0) { probe_answer = r; return; }
@@ -579,9 +593,12 @@ void process(std::string const& line)
     int o = std::stoi(t[1]), o2 = std::stoi(t[2]);
     mocksM[o2] = new MockM(std::move(*mocksM.at(o)));
   } else if (op == "kill") {
-    int o = std::stoi(t[1]);
-    if (mocksM.count(o)) { delete mocksM.at(o); mocksM.erase(o); }
-    else { delete mocksN.at(o); mocksN.erase(o); }
+    kill_mock(std::stoi(t[1]));
+  } else if (op == "releasek") {
+    int o = std::stoi(t[2]);
+    kill_on_report = o;
+    exps.erase(std::stoi(t[1]));
+    if (kill_on_report >= 0) { kill_on_report = -1; kill_mock(o); }     // nothing was reported: the mock dies afterwards
   } else if (op == "killseq") {
     int s = std::stoi(t[1]);
     delete seqs.at(s);
@@ -641,6 +658,7 @@ void process(std::string const& line)
       if (muted) { if (s == trompeloeil::severity::fatal) throw Reported{}; return; }
       ev(std::string("report ") + (s == trompeloeil::severity::fatal ? "F" : "N") + " r" + std::to_string(r) + " " + canon_report(msg));
       if (s == trompeloeil::severity::fatal) throw Reported{};
+      after_nonfatal();
     };
     if (t.size() > 2) {
       int k = std::stoi(t[2]);
